@@ -1,6 +1,6 @@
 (* C04 — submdspan views alias exactly the selected elements of their source. *)
 From Coq Require Import ZArith List.
-From MdspanVerif Require Import MachInt ListAux Layouts LayoutSpec Extents Submdspan SubSpec SubProofs.
+From MdspanVerif Require Import MachInt ListAux Layouts LayoutSpec Extents Submdspan SubSpec SubProofs AccessorLaw.
 Import ListNotations.
 Local Open Scope Z_scope.
 
@@ -84,3 +84,30 @@ Theorem C04_result_valid : forall (t : ity) (src : mapping) (pat : pattern) (sls
   valid t m' /\ sub_kind_ok m' = true /\ dims m' = sub_dims sls (dims src) /\ off = sub_offset sls (dims src).
 Proof. exact sub_valid_nonempty. Qed.
 Print Assumptions C04_result_valid.
+
+(* "the new data handle is obtained only through the source accessor's offset() and offset_policy": for an
+   ARBITRARY accessor - any handle types, any access / offset functions - the single law the accessor
+   requirements give, offset_policy.access(a.offset(p, i), j) = a.access(p, i + j), suffices for the view
+   (a.offset(p, off), sub-mapping) to alias exactly the selected source elements *)
+Theorem C04_any_accessor : forall (H H' Obj : Type) (access : H -> Z -> Obj) (offset : H -> Z -> H') (access' : H' -> Z -> Obj),
+  (forall p i j, 0 <= i -> 0 <= j -> access' (offset p i) j = access p (i + j)) ->
+  forall (t : ity) (src : mapping) (pat : pattern) (sls : list slice) (m' : mapping) (off : Z) (j : list Z) (p : H),
+  valid t src -> sub_kind_ok src = true ->
+  valid_slices sls (dims src) -> Forall (slice_rep t) sls -> pat_ok t pat (exts src) ->
+  Forall (fun d => snd d <= imax t) (sub_dims sls (dims src)) ->
+  submap t src pat sls = Ok (m', off) -> inbe j (exts m') ->
+  exists o' os, offset_impl t m' j = Ok o' /\ inbe (compose sls j) (exts src) /\
+                offset_impl t src (compose sls j) = Ok os /\
+                access' (offset p off) o' = access p os.
+Proof. exact sub_alias_accessor. Qed.
+Print Assumptions C04_any_accessor.
+
+(* the hypothesis is satisfiable by an accessor whose offset is not pointer addition (interleaved storage),
+   and on that accessor a handle formed as p + off instead of offset(p, off) designates another object *)
+Theorem C04_interleaved_accessor_law : forall p i j, 0 <= i -> 0 <= j -> il_access (il_offset p i) j = il_access p (i + j).
+Proof. exact interleaved_law. Qed.
+Print Assumptions C04_interleaved_accessor_law.
+
+Theorem C04_plain_pointer_add_refuted : exists p off o, 0 <= off /\ 0 <= o /\ il_access (p + off) o <> il_access p (off + o).
+Proof. exact plain_add_refuted. Qed.
+Print Assumptions C04_plain_pointer_add_refuted.
